@@ -1,6 +1,6 @@
 (** Entry point of the extracted model driver: one case line in, one result line out.
     The first token selects the operation. *)
-From Lisp Require Import Wire Equal Boot Binder Arena.
+From Lisp Require Import Wire Equal Boot Binder Arena Scanner Reader.
 
 Definition bad : list N := s_ "BADCASE".
 
@@ -169,6 +169,83 @@ Definition run_history_line (ts : list tok) : list N :=
   | _ => bad
   end.
 
+(** T <str>: tokenize; output X (invalid token) or, per token, "<kind> <text> <line>" *)
+Definition kind_code (k : tkind) : Z :=
+  match k with
+  | KIdent => -2 | KInt => -3 | KFloat => -4 | KString => -5 | KKeyword => -6 | KRawString => -7
+  | KChar c => Z.of_N c
+  end.
+
+Definition run_tokenize (ts : list tok) : list N :=
+  match parse_str ts with
+  | Some (src, []) =>
+      match tokenize src with
+      | None => s_ "X"
+      | Some toks =>
+          s_ "T " ++ concat (map (fun t => show_Z (kind_code (tkind_of t)) ++ sp ++ show_str (ttext t) ++ show_Z (tline t) ++ sp) toks)
+      end
+  | _ => bad
+  end.
+
+(** the REPL's continuation test looks for the exact message "expected 'X', got EOF" *)
+Definition eof_closer (msg : str) : option N :=
+  match msg with
+  | 101 :: 120 :: 112 :: 101 :: 99 :: 116 :: 101 :: 100 :: 32 :: 39 :: c :: rest =>
+      if str_eqb rest (s_ "', got EOF") then Some c else None
+  | _ => None
+  end%N.
+
+Definition show_read_outcome (o : outcome val) : list N :=
+  match o with
+  | Ok v => s_ "V " ++ show_val v
+  | Err e =>
+      match e with
+      | VLispErr (VGoErr msg) _ | VGoErr msg =>
+          match eof_closer msg with Some c => s_ "Q " ++ show_Z (Z.of_N c) | None => s_ "E" end
+      | _ => s_ "E"
+      end
+  | Panic _ => s_ "P"
+  | OutOfFuel => s_ "O"
+  end.
+
+Fixpoint parse_phmap (n : nat) (ts : list tok) : option (list (str * val) * list tok) :=
+  match n with
+  | O => Some ([], ts)
+  | S n' => match parse_str ts with
+            | Some (k, r) =>
+                match parse_value r with
+                | Some (v, r1) => match parse_phmap n' r1 with Some (l, r') => Some ((k, v) :: l, r') | None => None end
+                | None => None
+                end
+            | None => None
+            end
+  end.
+
+(** R <module?> <ph: 0 | 1 n (name value)*> <env?> <str>: reader.Read_str *)
+Definition std_ext : str -> list val -> outcome val :=
+  fun _ _ => Err (VGoErr (s_ "constructor")).
+
+Definition run_read (ts : list tok) : list N :=
+  match ts with
+  | TNum md :: TNum hasph :: r =>
+      let ph_r := if Z.eqb hasph 0 then Some (None, r)
+                  else match r with
+                       | TNum n :: r' => match parse_phmap (Z.to_nat n) r' with Some (mp, r2) => Some (Some mp, r2) | None => None end
+                       | _ => None
+                       end in
+      match ph_r with
+      | Some (ph, TNum hasenv :: r3) =>
+          match parse_str r3 with
+          | Some (src, []) =>
+              show_read_outcome (read_str (if Z.eqb md 0 then None else Some (s_ "mod")) ph
+                                          (if Z.eqb hasenv 0 then None else Some std_ext) src)
+          | _ => bad
+          end
+      | _ => bad
+      end
+  | _ => bad
+  end.
+
 Definition run_tokens (ts : list tok) : list N :=
   match ts with
   | TTag c :: r =>
@@ -176,6 +253,8 @@ Definition run_tokens (ts : list tok) : list N :=
       else if N.eqb c (tagc "P") then run_program r
       else if N.eqb c (tagc "B") then run_binder r
       else if N.eqb c (tagc "H") then run_history_line r
+      else if N.eqb c (tagc "T") then run_tokenize r
+      else if N.eqb c (tagc "R") then run_read r
       else bad
   | _ => bad
   end.
